@@ -99,7 +99,9 @@ def build_shim():
     os.makedirs(BUILD, exist_ok=True)
     source = os.path.join(VERIF, "shim/zysim.c")
     if not os.path.exists(SHIM) or os.path.getmtime(SHIM) < os.path.getmtime(source):
-        _run_build(["gcc", "-O2", "-fPIC", "-shared", "-o", SHIM, source, "-ldl"], VERIF, "shim.log")
+        # build aside and rename: processes that have the old library mapped keep their inode
+        _run_build(["gcc", "-O2", "-fPIC", "-shared", "-o", SHIM + ".new", source, "-ldl"], VERIF, "shim.log")
+        os.replace(SHIM + ".new", SHIM)
 
 
 def build_cli():
